@@ -75,6 +75,13 @@ PROPS = {
                        "selected positions, or the block is skipped exactly when it holds none. The reversed-slice recasting, keys that mix "
                        "integers / lists / reversed slices on n-d arrays and multi-chunk dask values are bounded",
     },
+    "C01": {
+        "level": "exploration",
+        "explanation": "bounded contract on the real API: randomly composed programs (a base array of a drawn shape, dtype and chunking, "
+                       "then up to four / six of 60 operations) compute NumPy's values, shape and dtype with graph optimisation on and off. "
+                       "Nothing is proved: the statement is an induction over an unbounded program space whose step cases are NumPy kernels; "
+                       "the integer lemmas it rests on are proved under C12-C19 and C24",
+    },
     "C05": {
         "level": "exploration",
         "frame": ["inplace"],
